@@ -1,24 +1,15 @@
-# C08 violation 3: repr/str/nstr of a number beyond 2^+-3500 whose exact decimal expansion is shorter
-# than the digit count never finishes (enclosure loop in to_digits_exp never closes); with Python's
-# 4300-digit int->str limit the runaway loop ends in ValueError instead of hanging.
-import sys, os, signal; sys.path.insert(0, os.getcwd())
-from mpmath import mp, mpf, nstr
-class Timeout(Exception): pass
-def alarm(*a): raise Timeout('no result after 8 s')
-signal.signal(signal.SIGALRM, alarm)
-mp.dps = 1100                                   # prec = 3657 bits
+import sys, os; sys.path.insert(0, os.getcwd())
+# str/nstr of an mpc with an infinite imaginary part glue the sign separator to
+# the '+inf' literal of to_str: '- +inf' instead of '-inf' (and '+ +inf').
+from mpmath import mp, mpc, inf, nstr, mpmathify
 bad = 0
-for label, x, f in [('repr(mpf(2)**3600)', mpf(2)**3600, repr),          # 1084-digit integer, 1103 digits asked
-                    ('str(3*mpf(2)**3600)', 3*mpf(2)**3600, str),
-                    ('nstr(mpf(2)**-3600, 2600)', mpf(2)**-3600, lambda v: nstr(v, 2600))]:  # 2517 significant digits
-    signal.alarm(8)
-    try:
-        got = f(x); ok = (eval(got) == x) if f is repr else (mpf(got) == x)
-        got = got[:30] + '...'
-    except Exception as e:
-        got, ok = 'raised %s: %s' % (type(e).__name__, str(e)[:60]), False
-    finally:
-        signal.alarm(0)
-    print('mp.dps=1100  %s: observed %s | expected the exact decimal expansion (round trip)' % (label, got))
-    if not ok: bad = 1
+for z, want in [(mpc(1, -inf), '(1.0 - infj)'), (mpc(1, inf), '(1.0 + infj)')]:
+    for s in (str(z), nstr(z, 5)):
+        ok = '+ +' not in s and '- +' not in s
+        print("observed %-16s expected e.g. %-14s %s" % (s, want, "ok" if ok else "VIOLATION"))
+        try:
+            mpmathify(s)
+        except Exception as ex:
+            print("   mpmathify(%r) fails: %r" % (s, ex))
+        bad |= (not ok)
 sys.exit(bad)
